@@ -65,6 +65,7 @@ def run_trading(rnd, S, cfgk, intensity=1.0, script=None, analyser=False):
     from rqalpha.const import SIDE, POSITION_EFFECT, POSITION_DIRECTION
     tr = Trace()
     tr.S, tr.cfg = S, cfgk
+    tr.probe_orders = set()
     srnd = random.Random(rnd.random())
     stocks = [s["id"] for s in S["stocks"]]
     futs = [f["id"] for f in S["futures"]]
@@ -79,7 +80,24 @@ def run_trading(rnd, S, cfgk, intensity=1.0, script=None, analyser=False):
     def pf_snap(context):
         p = context.portfolio
         return {"units": float(p.units), "nav": float(p.unit_net_value), "static_nav": float(p.static_unit_net_value), "total_value": float(p.total_value),
-                "daily_returns": float(p.daily_returns), "total_returns": float(p.total_returns)}
+                "daily_returns": float(p.daily_returns), "total_returns": float(p.total_returns), "cash": float(p.cash), "market_value": float(p.market_value),
+                "daily_pnl": float(p.daily_pnl)}
+
+    def rows_snap(context):
+        """the raw values the analyser's account / position records are made of"""
+        accts, poss = [], []
+        for t, a in context.portfolio.accounts.items():
+            f = [a.cash, a.transaction_cost, a.market_value, a.total_value]
+            if t == "FUTURE":
+                f += [a.position_pnl, a.trading_pnl, a.daily_pnl, a.margin]
+            accts.append((t, [float(x) for x in f]))
+            if t == "STOCK":
+                seen = []
+                for pos in a.get_positions():
+                    if pos.order_book_id not in seen and pos.direction == POSITION_DIRECTION.LONG:
+                        seen.append(pos.order_book_id)
+                        poss.append((pos.order_book_id, [float(pos.quantity), float(pos.last_price), float(pos.avg_price), float(pos.market_value)]))
+        return accts, poss
 
     def init(context):
         from rqalpha.api import subscribe_event, subscribe
@@ -91,6 +109,7 @@ def run_trading(rnd, S, cfgk, intensity=1.0, script=None, analyser=False):
                 def h(context, event):
                     tr.events.append((name, {"cal": env.calendar_dt, "trd": env.trading_dt, "accounts": accounts_snap(context), "pf": pf_snap(context),
                                              "daily_pnl": {t: float(a.daily_pnl) for t, a in context.portfolio.accounts.items()} if name == "POST_SETTLEMENT" else {},
+                                             "rows": rows_snap(context) if name == "POST_SETTLEMENT" else None,
                                              "open": [o.order_id for o in env.broker.get_open_orders()]}))
                 return h
             subscribe_event(getattr(EVENT, name), mk(name))
@@ -113,10 +132,26 @@ def run_trading(rnd, S, cfgk, intensity=1.0, script=None, analyser=False):
             tr.events.append(("TRADE", {"cal": env.calendar_dt, "trd": env.trading_dt, "phase_hint": tr.stats.get("_phase"),
                                         "trade": {"book": t.order_book_id, "price": float(t.last_price), "qty": t.last_quantity, "side": t.side.name, "effect": t.position_effect.name,
                                                   "commission": float(t.commission), "tax": float(t.tax), "order_id": t.order_id, "close_today": t.close_today_amount,
+                                                  "exec_id": t.exec_id, "dt": t.datetime, "tdt": t.trading_datetime,
                                                   "frozen_price": float(t.frozen_price) if t.frozen_price is not None else None},
                                         "order": order_snap(o) if o is not None else None, "accounts": accounts_snap(context),
                                         "open": [x.order_id for x in env.broker.get_open_orders()]}))
         subscribe_event(EVENT.TRADE, on_trade)
+
+    def near_limit_today(env):
+        out = []
+        try:
+            di = S["cal"].index(env.trading_dt.date())
+        except ValueError:
+            return out
+        for srec in S["stocks"]:
+            bar = srec["bars"].get(di)
+            if bar is not None and bar[5] > 0:
+                if 0 < bar[7] - bar[2] <= 0.035:
+                    out.append((srec["id"], "up"))
+                if 0 < bar[2] - bar[8] <= 0.035:
+                    out.append((srec["id"], "down"))
+        return out
 
     def ops(context, phase):
         import rqalpha.api as api
@@ -147,7 +182,44 @@ def run_trading(rnd, S, cfgk, intensity=1.0, script=None, analyser=False):
             open_before = [o.order_id for o in env.broker.get_open_orders()]
             res = None
             try:
-                if r < 0.05 and stocks and "STOCK" in before and before["STOCK"]["holdings"]:
+                if phase == "AUC" and stocks and "STOCK" in before and srnd.random() < 0.2:
+                    # directed combination: a limit order in the auction larger than one round of the volume cap, priced to fill
+                    # in the auction AND in the day bar (an order completed by several fills)
+                    oid = srnd.choice(stocks)
+                    srec = next(x for x in S["stocks"] if x["id"] == oid)
+                    di = S["cal"].index(env.trading_dt.date())
+                    bar = srec["bars"].get(di)
+                    pct = cfgk["sim"].get("volume_percent", 0.25)
+                    if bar is not None and bar[5] * pct >= 200 and bar[7] == bar[7]:
+                        cap = int(round(bar[5] * pct)) // 100 * 100
+                        q = min(cap + srnd.choice([100, cap // 2 // 100 * 100, cap - 100 if cap > 100 else 100, cap]), 20000)
+                        held = next((h["long"]["qty"] for h in before["STOCK"]["holdings"] if h["id"] == oid), 0)
+                        sell = held >= q and srnd.random() < 0.4
+                        lim = bar[8] if sell else bar[7]
+                        call.update(api="combo_auction_two_fill", args=(oid, -q if sell else q, lim))
+                        res = api.order_shares(oid, -q if sell else q, price_or_style=LimitOrder(lim))
+                elif phase == "BAR" and stocks and "STOCK" in before and srnd.random() < 0.25 and near_limit_today(env):
+                    # directed: trade on the adverse side when today's close is a tick or two inside the band (slippage must stay inside)
+                    oid, side = srnd.choice(near_limit_today(env))
+                    held = next((h["long"]["qty"] for h in before["STOCK"]["holdings"] if h["id"] == oid), 0)
+                    amt = 100 if side == "up" else -min(held, srnd.choice([100, held]))
+                    if amt != 0:
+                        call.update(api="order_shares", args=(oid, amt, None))
+                        res = api.order_shares(oid, amt)
+                elif S.get("_probe_validators") and stocks and "STOCK" in before and srnd.random() < 0.2:
+                    # the validator chain asked directly (Environment.can_submit_order) about an order the order APIs would not even create:
+                    # instruments before their listing / on or after their delisting date have no market data
+                    from rqalpha.model.order import Order
+                    oid = srnd.choice(stocks)
+                    srec = next(x for x in S["stocks"] if x["id"] == oid)
+                    di = S["cal"].index(env.trading_dt.date())
+                    known = [srec["bars"][j] for j in sorted(srec["bars"]) if j <= di] or [srec["bars"][min(srec["bars"])]]
+                    lim = known[-1][2]
+                    o = Order.__from_create__(oid, 100, SIDE.BUY, LimitOrder(lim), POSITION_EFFECT.OPEN)
+                    call.update(api="probe_validators", args=(oid, 100, lim))
+                    tr.probe_orders.add(o.order_id)
+                    env.can_submit_order(o)
+                elif r < 0.05 and stocks and "STOCK" in before and before["STOCK"]["holdings"]:
                     # directed combination: buy today, rest a sell above the market, then sell (about) the whole holding
                     h = srnd.choice(before["STOCK"]["holdings"])
                     oid, held = h["id"], h["long"]["qty"]
